@@ -31,6 +31,23 @@ func (c *ctx) budget(quick, thorough int) int {
 
 var recorders = map[string]func(*ctx){}
 
+// try runs a library call on a well-formed request under recover: a panic inside the library is an observation
+// about the code (logged as an event that every trace specification rejects), not a reason for the recorder to die.
+func (c *ctx) try(op string, info vt.Ev, f func()) (ok bool) {
+	defer func() {
+		if p := recover(); p != nil {
+			e := vt.Ev{"op": "libpanic", "cfg": c.cfg, "during": op, "msg": fmt.Sprint(p)}
+			for k, v := range info {
+				e[k] = v
+			}
+			c.w.Emit(e)
+			ok = false
+		}
+	}()
+	f()
+	return true
+}
+
 func main() {
 	prop := flag.String("prop", "", "property id")
 	seed := flag.Int64("seed", 1, "seed")
